@@ -419,9 +419,6 @@ type refDRBG struct {
 	counter  uint64
 	expired  bool // GM time rule: set by the time scenario after the interval has elapsed
 	c        core
-	// hmacNoLimit selects the bug-compatible variant for KF-C17-hmac-request-limit:
-	// HMAC Generate accepts requests above MaxBytesPerRequest.
-	hmacNoLimit bool
 }
 
 func newCore(m mechSpec, gm bool) core {
@@ -474,7 +471,7 @@ func (d *refDRBG) Generate(n int, addl []byte) ([]byte, errClass) {
 	if d.needReseed() {
 		return nil, eReseed
 	}
-	if n > d.m.maxRequest(d.gm) && !(d.m.Kind == "hmac" && d.hmacNoLimit) {
+	if n > d.m.maxRequest(d.gm) {
 		return nil, eInvalid
 	}
 	out := d.c.generate(n, addl, d.counter)
